@@ -36,8 +36,8 @@ var solvers = []solverSpec{
 	{"cvc5", func(f string, t int) []string { return []string{"cvc5", fmt.Sprintf("--tlimit=%d", t*1000), f} }},
 }
 
-func runSolver(s solverSpec, file string, timeoutS int) (string, string, int64) {
-	ctx, cancel := context.WithTimeout(context.Background(), time.Duration(timeoutS+2)*time.Second)
+func runSolver(ctx context.Context, s solverSpec, file string, timeoutS int) (string, string, int64) {
+	ctx, cancel := context.WithTimeout(ctx, time.Duration(timeoutS+2)*time.Second)
 	defer cancel()
 	args := s.args(file, timeoutS)
 	cmd := exec.CommandContext(ctx, args[0], args[1:]...)
@@ -86,46 +86,53 @@ func (o *Obligation) query(withModel bool) string {
 	return sb.String()
 }
 
-// Solve runs the portfolio on one obligation.
+// Solve runs the portfolio on one obligation: all solvers race, the first definitive answer wins.
 func Solve(o *Obligation, dir string, idx int, timeoutS int, thorough bool) *SolveResult {
 	if o.Goal == "true" {
 		return &SolveResult{Status: "trivial", Solver: "syntactic"}
 	}
+	if o.Goal == "false" && o.Kind != "canary" {
+		return &SolveResult{Status: "sat", Solver: "syntactic"}
+	}
 	q := o.query(false)
 	file := filepath.Join(dir, fmt.Sprintf("q%05d.smt2", idx))
 	os.WriteFile(file, []byte(q), 0644)
-	res := &SolveResult{Bytes: len(q), Query: file}
+	res := &SolveResult{Bytes: len(q), Query: file, Status: "unknown"}
 	expectSat := o.Kind == "canary"
 	t0 := time.Now()
-	// first the fast solver alone, then the others in parallel
-	st, out, _ := runSolver(solvers[0], file, timeoutS)
-	res.Tried = append(res.Tried, solvers[0].name+":"+st)
-	res.Status, res.Solver, res.Output = st, solvers[0].name, out
-	if st != "unsat" && st != "sat" && !expectSat {
-		type r struct {
-			st, out, name string
+	type r struct {
+		st, out, name string
+	}
+	use := solvers
+	if expectSat {
+		use = solvers[:1]
+	}
+	ctx, cancel := context.WithCancel(context.Background())
+	ch := make(chan r, len(use))
+	for _, s := range use {
+		go func(s solverSpec) {
+			st, out, _ := runSolver(ctx, s, file, timeoutS)
+			ch <- r{st, out, s.name}
+		}(s)
+	}
+	for i := 0; i < len(use); i++ {
+		x := <-ch
+		res.Tried = append(res.Tried, x.name+":"+x.st)
+		if x.st == "unsat" || x.st == "sat" {
+			res.Status, res.Solver, res.Output = x.st, x.name, x.out
+			break
 		}
-		ch := make(chan r, 2)
-		for _, s := range solvers[1:] {
-			go func(s solverSpec) {
-				st, out, _ := runSolver(s, file, timeoutS)
-				ch <- r{st, out, s.name}
-			}(s)
-		}
-		for i := 0; i < 2; i++ {
-			x := <-ch
-			res.Tried = append(res.Tried, x.name+":"+x.st)
-			if x.st == "unsat" || (x.st == "sat" && res.Status != "unsat") {
-				res.Status, res.Solver, res.Output = x.st, x.name, x.out
-			}
+		if res.Solver == "" || x.st == "unknown" {
+			res.Status, res.Solver, res.Output = x.st, x.name, x.out
 		}
 	}
+	cancel()
 	if thorough && res.Status == "unsat" && !expectSat {
 		for _, s := range solvers {
 			if s.name == res.Solver {
 				continue
 			}
-			st, _, _ := runSolver(s, file, timeoutS)
+			st, _, _ := runSolver(context.Background(), s, file, timeoutS)
 			res.Tried = append(res.Tried, s.name+":"+st)
 			if st == "unsat" {
 				res.Confirm++
